@@ -449,6 +449,12 @@ func (s *loopSim) cond(outer func(Term) (int64, bool)) (bool, bool) {
 // post applies the post statement (integers only).
 func (s *loopSim) post() bool {
 	c, l := s.c, s.l
+	if l.Post == nil && l.PostStep != nil {
+		for o, d := range l.PostStep {
+			s.state[o] += d
+		}
+		return true
+	}
 	if l.Post == nil {
 		s.why = "loop without post statement"
 		return false
